@@ -250,7 +250,7 @@ Definition begin_move (s : state) : state :=
   if negb (bytes_eqb (st_nav_input s) (cx_input c)) || (spans_end (st_spans s) <? cx_caret c)
   then mkSt c (cx_input c)
             (fold_left (fun sp g => spans_add_span sp (s_start g) (s_end g)) (segs_fwd (cx_comp c)) [])
-            (st_commit s) (st_odd s) (st_kb_last s)
+            (st_commit s) (st_odd s) (st_kb_last s) (st_ac s) (st_clock s)
   else st_with_ctx s c.
 
 Definition jump_left (s : state) (start_pos : nat) : state * bool :=
@@ -408,7 +408,7 @@ Definition pair_punct (s : state) (fs : bool) (b : byte) : state * bool :=
           let odd := odd_get (st_odd s) fs b in
           let g' := seg_with_sel g (size_wrap (s_sel g + (if odd then 1 else 0)) mod 2)%N in
           let s1 := mkSt (ctx_with_comp c (sg_set_back (cx_comp c) g')) (st_nav_input s) (st_spans s) (st_commit s)
-                         (odd_set (st_odd s) fs b (negb odd)) (st_kb_last s) in
+                         (odd_set (st_odd s) fs b (negb odd)) (st_kb_last s) (st_ac s) (st_clock s) in
           (fst (confirm_current_selection s1), true)
       end
     else (s, false)
@@ -542,6 +542,120 @@ Definition editor_process (s : state) (k : key) : state * presult :=
       end
     else (s1, PNoop).
 
+(** ---- AsciiComposer (gear/ascii_composer.cc) ---- *)
+Definition XK_Shift_L : Z := 65505.      (* 0xffe1 *)
+Definition XK_Shift_R : Z := 65506.
+Definition XK_Control_L : Z := 65507.
+Definition XK_Control_R : Z := 65508.
+Definition XK_Caps_Lock : Z := 65509.    (* 0xffe5 *)
+Definition XK_Eisu_toggle : Z := 65328.  (* 0xff30 *)
+Definition k_caps (k : key) : bool := Z.testbit (k_mod k) 1.
+
+Fixpoint ac_find (l : list (Z * ac_style)) (code : Z) : option ac_style :=
+  match l with
+  | [] => None
+  | (c, st) :: r => if (c =? code)%Z then Some st else ac_find r code
+  end.
+(** caps_lock_switch_style_ as LoadConfig leaves it *)
+Definition ac_caps_style : ac_style :=
+  match ac_find (cf_ascii_keys cfg) XK_Caps_Lock with
+  | Some AcInline => AcClear
+  | Some st => st
+  | None => AcNoop
+  end.
+Definition ac_style_is_noop (st : ac_style) : bool := match st with AcNoop => true | _ => false end.
+
+Definition ac_unpress (s : state) : state :=
+  st_with_ac s (mkAc false false (ac_caps (st_ac s)) (ac_expire (st_ac s))).
+Definition ac_with_caps (s : state) (b : bool) : state :=
+  st_with_ac s (mkAc (ac_shift (st_ac s)) (ac_ctrl (st_ac s)) b (ac_expire (st_ac s))).
+
+(** ConcreteEngine::CommitText(text) *)
+Definition commit_text (s : state) (text : bytes) : state :=
+  let c := st_ctx s in
+  let c1 := ctx_with_hist c (Some (ty_raw, ends_with_digit text)) in
+  sink (st_with_ctx s c1) (format_text c1 text).
+
+(** AsciiComposer::SwitchAsciiMode *)
+Definition ac_switch (s : state) (ascii_mode : bool) (style : ac_style) : state :=
+  let s1 :=
+    if is_composing (st_ctx s) then
+      let s0 := on_ctx s (fun c => ctx_with_conn c false) in
+      match style with
+      | AcInline => if ascii_mode then on_ctx s0 (fun c => ctx_with_conn c true) else s0
+      | AcCommitText => fst (confirm_current_selection s0)
+      | AcCommitCode => fst (commit (on_ctx s0 (fun c => fst (clear_non_confirmed c))))
+      | AcClear => on_ctx s0 clear
+      | AcNoop => s0
+      end
+    else s in
+  on_ctx s1 (fun c => set_option cfg translate c opt_ascii_mode ascii_mode).
+
+(** AsciiComposer::ToggleAsciiModeWithKey *)
+Definition ac_toggle_with_key (s : state) (code : Z) : state :=
+  match ac_find (cf_ascii_keys cfg) code with
+  | None => s
+  | Some style =>
+    let s1 := ac_switch s (negb (get_option (st_ctx s) opt_ascii_mode)) style in
+    ac_with_caps s1 (code =? XK_Caps_Lock)%Z
+  end.
+
+(** [isascii(ch) && isalpha(ch)] and the case swap of ProcessCapsLock *)
+Definition ac_is_alpha (ch : Z) : bool := (((65 <=? ch) && (ch <=? 90)) || ((97 <=? ch) && (ch <=? 122)))%Z.
+Definition ac_swap_case (ch : Z) : Z := (if (97 <=? ch) then ch - 32 else ch + 32)%Z.
+
+(** AsciiComposer::ProcessCapsLock *)
+Definition ac_process_caps_lock (s : state) (k : key) : state * presult :=
+  let ch := k_code k in
+  if (ch =? XK_Caps_Lock)%Z then
+    if negb (k_release k) then
+      let s1 := ac_unpress s in
+      if cf_good_old_caps cfg && negb (ac_caps (st_ac s1)) && get_option (st_ctx s1) opt_ascii_mode
+      then (s1, PRejected)
+      else
+        let s2 := ac_with_caps s1 (negb (k_caps k)) in
+        (ac_switch s2 (negb (k_caps k)) ac_caps_style, PAccepted)
+    else (s, PRejected)
+  else if k_caps k then
+    if negb (cf_good_old_caps cfg) && negb (k_release k) && negb (k_ctrl k) && ac_is_alpha ch
+    then (commit_text s [byte_of_N (Z.to_N (ac_swap_case ch))], PAccepted)
+    else (s, PRejected)
+  else (s, PNoop).
+
+(** AsciiComposer::ProcessKeyEvent.  [now < toggle_expired_] is read off the state's clock. *)
+Definition ascii_composer_process (s : state) (k : key) : state * presult :=
+  if (k_shift k && k_ctrl k) || k_alt k || k_super k then (ac_unpress s, PNoop)
+  else
+    let (s, r) := if ac_style_is_noop ac_caps_style then (s, PNoop) else ac_process_caps_lock s k in
+    if negb (presult_is_noop r) then (s, r)
+    else
+      let ch := k_code k in
+      if (ch =? XK_Eisu_toggle)%Z then
+        if negb (k_release k) then (ac_toggle_with_key (ac_unpress s) ch, PAccepted) else (s, PRejected)
+      else
+        let is_shift := ((ch =? XK_Shift_L) || (ch =? XK_Shift_R))%Z in
+        let is_ctrl := ((ch =? XK_Control_L) || (ch =? XK_Control_R))%Z in
+        let a := st_ac s in
+        if is_shift || is_ctrl then
+          if k_release k then
+            if ac_shift a || ac_ctrl a then
+              let s1 := if ((is_shift && ac_shift a) || (is_ctrl && ac_ctrl a)) && (st_clock s <? ac_expire a)%N
+                        then ac_toggle_with_key s ch else s in
+              (ac_unpress s1, PNoop)
+            else (s, PNoop)
+          else if negb (ac_shift a || ac_ctrl a) then
+            (st_with_ac s (mkAc is_shift (negb is_shift) (ac_caps a) (st_clock s + 500)%N), PNoop)
+          else (s, PNoop)
+        else
+          let s := ac_unpress s in
+          if k_ctrl k || (k_shift k && (ch =? XK_space)%Z) then (s, PNoop)
+          else if get_option (st_ctx s) opt_ascii_mode then
+            if negb (is_composing (st_ctx s)) then (s, PRejected)
+            else if negb (k_release k) && (32 <=? ch)%Z && (ch <? 128)%Z
+                 then (on_ctx s (fun c => push_input c (byte_of_N (Z.to_N ch))), PAccepted)
+                 else (s, PNoop)
+          else (s, PNoop).
+
 (** ---- ShapeProcessor (the post-processor) ---- *)
 Definition shape_process (s : state) (k : key) : state * presult :=
   let c := st_ctx s in
@@ -585,7 +699,7 @@ Definition reinterpret_paging_key (s : state) (k : key) : state * bool :=
   else
     let ch := if (k_mod k =? 0)%Z then k_code k else 0%Z in
     let lk := st_kb_last s in
-    let with_last (x : state) (v : Z) := mkSt (st_ctx x) (st_nav_input x) (st_spans x) (st_commit x) (st_odd x) v in
+    let with_last (x : state) (v : Z) := mkSt (st_ctx x) (st_nav_input x) (st_spans x) (st_commit x) (st_odd x) v (st_ac x) (st_clock x) in
     if (ch =? 46)%Z && ((lk =? 46)%Z || (lk =? 44)%Z) then (with_last s 0%Z, false)
     else if (lk =? 46)%Z && (97 <=? ch)%Z && (ch <=? 122)%Z then
       let inp := cx_input (st_ctx s) in
@@ -643,6 +757,7 @@ Definition proc_of (kb : state -> key -> state * presult) (i : proc_id) : state 
   | PNavigator => navigator_process
   | PEditor => editor_process
   | PKeyBinder => kb
+  | PAsciiComposer => ascii_composer_process
   end.
 Definition processors (kb : state -> key -> state * presult) : list (state -> key -> state * presult) :=
   map (proc_of kb) (cf_processors cfg).
